@@ -326,6 +326,8 @@ def undischarged_in(ctx, body):
 
 # Audited sites that may legitimately appear in another shape after a behaviour-preserving edit.
 ALT_SHAPES = [
+    {"pattern": r"^re_matcher::ReMatcher::clear_captured_groups_beyond\|index:index(_mut)?\(a1\.state\.((start|end)_backref|capture_state\.(startn|endn)), (next\(v\) as Some\.0|<Enumerate<I> as Iterator>::next\(v\) as Some\.0\.0)\)$",
+     "reason": "clear_captured_groups_beyond reading the arrays directly instead of through the accessors: the index ranges over the start array of the pair (CLEAR-BEYOND *|range), and the two arrays of a pair have the same length (back-references: allocated together with max_parens entries, MATCH-AT backref-alloc; groups: set_paren_start/set_paren_end extend both)"},
     {"pattern": r"^analyze_string::AnalyzeIter::process_matching_substring::\{closure#\d+\}::\{closure#0\}\|OverflowNeg<isize>\(a1\.0\)$",
      "reason": "negation of a group number that was converted from usize to isize (hence >= 0): only isize::MIN overflows"},
     {"pattern": r"^re_compiler::ReCompiler::there_follows::\{closure#0\}\|index:index\(a1\.0\.pattern, add\((a2\.0, a1\.0\.idx|a1\.0\.idx, a2\.0)\)\)$",
@@ -394,7 +396,7 @@ def panic_inventory(ctx):
     return out
 
 
-@rule("BORROW-SCOPE", ["C05", "C18"], floor=20)
+@rule("BORROW-SCOPE", ["C05", "C18"], floor=8)
 def borrow_scope(ctx):
     """Every RefCell borrow guard is statement-local: between the borrow and the drop of its guard no call can reach
     another borrow of the matcher state (no BorrowMutError)."""
